@@ -140,13 +140,19 @@ impl Rasn {
     /// The Rust name of a type that the linker has recorded in a value: the name of a type
     /// assignment, or the internal name of the item type of a `SEQUENCE OF` / `SET OF` assignment
     pub(crate) fn linked_type_name_to_tokens(&self, name: &str) -> TokenStream {
-        match name.strip_prefix(INTERNAL_ITEM_TYPE_NAME_PREFIX) {
-            Some(array_like) => {
-                let array_like = self.linked_type_name_to_tokens(array_like).to_string();
-                format_ident!("Anonymous{array_like}").to_token_stream()
-            }
-            None => self.to_rust_title_case(name),
+        if let Some(array_like) = name.strip_prefix(INTERNAL_ITEM_TYPE_NAME_PREFIX) {
+            let array_like = self.linked_type_name_to_tokens(array_like).to_string();
+            return format_ident!("Anonymous{array_like}").to_token_stream();
         }
+        // the anonymous type of a component: `INNER$component$parent`
+        if let Some((component, parent)) = name
+            .strip_prefix(INTERNAL_NESTED_TYPE_NAME_PREFIX)
+            .and_then(|nested| nested.split_once('$'))
+        {
+            let parent = self.linked_type_name_to_tokens(parent).to_string();
+            return self.inner_name(component, &parent).to_token_stream();
+        }
+        self.to_rust_title_case(name)
     }
 
     pub(crate) fn inner_name(&self, name: &str, parent_name: &str) -> Ident {
@@ -935,7 +941,7 @@ impl Rasn {
                 enumerated,
                 enumerable,
             } => {
-                let enum_name = self.to_rust_title_case(enumerated);
+                let enum_name = self.linked_type_name_to_tokens(enumerated);
                 let enumerable_id = self.to_rust_enum_identifier(enumerable);
                 Ok(quote!(#enum_name::#enumerable_id))
             }
